@@ -32,6 +32,12 @@ func NewMutexMap() *MutexMap {
 // This method will never return nil and Unlock() must be called
 // to release the lock when done.
 func (m *MutexMap) Lock(key interface{}) Unlocker {
+	return m.LockWithWait(key, nil)
+}
+
+// LockWithWait is Lock; onWait, if not nil, is called once before the caller blocks because the
+// lock for this key is held by somebody else.
+func (m *MutexMap) LockWithWait(key interface{}, onWait func()) Unlocker {
 	// read or create entry for this key atomically
 	m.ml.Lock()
 	e, ok := m.ma[key]
@@ -43,7 +49,14 @@ func (m *MutexMap) Lock(key interface{}) Unlocker {
 	m.ml.Unlock()
 
 	// acquire lock, will block here until e.cnt==1
-	e.el.Lock()
+	if onWait == nil {
+		e.el.Lock()
+		return e
+	}
+	if !e.el.TryLock() {
+		onWait()
+		e.el.Lock()
+	}
 
 	return e
 }
